@@ -137,8 +137,12 @@ def run_chunk(prop: str, master: int, tier: str, start: int, count: int, wall_gu
 # ----------------------------------------------------------------------------------------
 # shrinking
 # ----------------------------------------------------------------------------------------
-def _fails_same(mod, plan, kind, known):
+def _fails_same(mod, plan, kind, known, warmup: int = 0):
+    """Run the plan (after `warmup` throw-away executions of the same plan in this process, for failures that need
+    state left behind by an earlier run, e.g. a class-level attribute of the code under test)."""
     try:
+        for _ in range(warmup):
+            mod.run_plan(plan)
         res = mod.run_plan(plan)
     except Exception:
         return None
@@ -148,7 +152,7 @@ def _fails_same(mod, plan, kind, known):
     return None
 
 
-def shrink(mod, plan: dict, kind: str, known: list, budget_s: float = 45.0, max_evals: int = 1500):
+def shrink(mod, plan: dict, kind: str, known: list, budget_s: float = 45.0, max_evals: int = 1500, warmup: int = 0):
     """ddmin over plan['steps'], then per-step and knob simplification; keeps `kind`."""
     t0 = time.time()
     evals = 0
@@ -159,7 +163,7 @@ def shrink(mod, plan: dict, kind: str, known: list, budget_s: float = 45.0, max_
         if evals >= max_evals or time.time() - t0 > budget_s:
             return False
         evals += 1
-        r = _fails_same(mod, cand, kind, known)
+        r = _fails_same(mod, cand, kind, known, warmup)
         if r:
             best = cand
             return True
@@ -228,11 +232,11 @@ def shrink(mod, plan: dict, kind: str, known: list, budget_s: float = 45.0, max_
 # ----------------------------------------------------------------------------------------
 # replay
 # ----------------------------------------------------------------------------------------
-def write_replay(prop: str, plan: dict, violation: dict, digest: str, orig_steps: int) -> str:
+def write_replay(prop: str, plan: dict, violation: dict, digest: str, orig_steps: int, warmup: int = 0) -> str:
     os.makedirs(REPLAY_DIR, exist_ok=True)
     body = {"property": prop, "seed": plan.get("seed"), "kind": violation["kind"],
             "detail": violation["detail"], "trace_digest": digest, "original_steps": orig_steps,
-            "plan": plan}
+            "warmup_runs": warmup, "plan": plan}
     h = hashlib.blake2b(json.dumps(body, sort_keys=True, default=repr).encode(), digest_size=5).hexdigest()
     path = os.path.join(REPLAY_DIR, f"{prop}-{plan.get('seed')}-{h}.json")
     with open(path, "w") as f:
@@ -245,6 +249,8 @@ def do_replay(prop: str, path: str, quiet=False) -> int:
     with open(path) as f:
         body = json.load(f)
     known = load_known(prop)
+    for _ in range(int(body.get("warmup_runs") or 0)):
+        mod.run_plan(body["plan"])
     res = mod.run_plan(body["plan"])
     hit = None
     for v in res.violations:
@@ -360,8 +366,13 @@ def run_check(prop: str, tier: str, master: int, budget: float, jobs: int, max_r
             by_kind.setdefault(v["violation"]["kind"], v)
         for kind, v in list(by_kind.items())[:3]:
             orig_steps = len(v["plan"].get("steps", []))
-            small, evals = shrink(mod, v["plan"], kind, known)
-            r = _fails_same(mod, small, kind, known)
+            warmup = 0
+            if not _fails_same(mod, v["plan"], kind, known) and _fails_same(mod, v["plan"], kind, known, 1):
+                # only fails on a process that has already executed a run: state leaks between runs in the code under
+                # test. Replays of this file execute the plan once as warm-up before the judged execution.
+                warmup = 1
+            small, evals = shrink(mod, v["plan"], kind, known, warmup=warmup)
+            r = _fails_same(mod, small, kind, known, warmup)
             if not r:
                 # The worker saw it, this process does not: the failure depends on something outside the plan
                 # (in practice: object addresses / allocator state, e.g. code keyed on id()). It is still a
@@ -379,7 +390,7 @@ def run_check(prop: str, tier: str, master: int, budget: float, jobs: int, max_r
                 rc = 1 if rc == 0 else rc
                 continue
             res, viol = r
-            path = write_replay(prop, small, viol, res.digest, orig_steps)
+            path = write_replay(prop, small, viol, res.digest, orig_steps, warmup)
             if verify_replay_fresh(prop, path):
                 print(f"violation kind={kind} seed={v['seed']} steps {orig_steps}->{len(small.get('steps', []))} "
                       f"(shrink evals={evals}) detail={json.dumps(viol['detail'], default=repr)[:600]}")
